@@ -15,12 +15,12 @@ _OUTSIDE = ("more cycles / mutations per cycle; element types other than int; du
 reg("C05",
     name="C05_delta", src="harness/C05_delta.cpp",
     anchor_files=_ANCHORS,
-    quick=dict(defs=dict(NCYC=2, NOPS=2, NK=2, RAMP=0), symx=dict(shards=16, **{"max-wall": 900})),
+    quick=dict(defs=dict(NCYC=2, NOPS=2, NK=2, RAMP=0, TSS_LAST=1), symx=dict(shards=16, **{"max-wall": 900})),
     thorough=dict(defs=dict(NCYC=3, NCYC_TSS=3, NCYC_TSD=3, BIG_LAST=1, MID5=2, NOPS=2, NK=2, RAMP=9), symx=dict(shards=16, **{"max-wall": 3000, "shard-depth": 8})),
     reach=_REACH,
     bounds="unit level, no graph: one real TSOutput of each shape in {TSS<int>, TSD<int,TS<int>>, dynamic TSL<TS<int>>, TSB{a,b}, TSW<int,N,min> with N in 1..3 and "
-           "min in 1..N, TSD<int,TSS<int>> (3 cycles of NOPS, MID5, 1 operations from {add (k,e) creating k, remove (k,e), erase k, clear}, elements {0,1})} (enumerated) observed through the producer view, a bound TSInput consumer, delta_value() and capture_delta(); NCYC cycles (TSS: NCYC_TSS, "
-           "TSD: NCYC_TSD, TSW: 2*NCYC with one mutation scope per cycle) of NOPS mutations each, enumerated from {nothing, add/remove/clear (TSS), set/erase/clear/"
+           "min in 1..N, TSD<int,TSS<int>> (3 cycles of NOPS, MID5, 1 operations from {add (k,e) creating k, remove (k,e), erase k, clear}, elements {0,1})} (enumerated) observed through the producer view, a bound TSInput consumer, delta_value() and capture_delta(); NCYC cycles (TSS: NCYC_TSS with TSS_LAST mutations in the last one, "
+           "TSD: NCYC_TSD with BIG_LAST in the last one, TSW: 2*NCYC with one mutation scope per cycle) of NOPS mutations each, enumerated from {nothing, add/remove/clear (TSS), set/erase/clear/"
            "element write/create without value/element invalidate (TSD), element write with growth/whole-value write (TSL, TSB), push/clear/clear+push (TSW)}; "
            "keys from {0..NK-1} (thorough: after a concrete ramp of RAMP further keys inserted in a first cycle, crossing the slot-store growth boundaries); base time, "
            "gaps in [1,GMAX] us and all payloads in [-1e6,1e6] symbolic",
@@ -42,6 +42,7 @@ META = dict(
     level="bounded symbolic model checking of the collection delta machinery (slot store added/removed/modified bits with cancellation and lazy reclamation, "
           "dynamic list growth, fixed-structure child deltas, tick-window push/evict/clear) against a mirror model and against the relation "
           "value(t) = value(t_prev) (+) delta(t): every mutation history up to the bound, all payloads and times symbolic",
-    note="on TSD histories that contain a key which is live without a published value (created without a write, or element invalidated) the unchanged tree "
-         "contradicts the statement; those are reported under their own assertion ids and listed in known_findings.jsonl; triage in notes/C05.md",
+    note="on TSD histories that contain a key which is live without a published value (created without a write, or element invalidated) the tree contradicts "
+         "the statement (open known findings F3a-c, asserted under their own ids); F4 (tick window valid() below min_period) was found by this harness and is "
+         "fixed in /repo 08e1221; triage in notes/C05.md",
 )
